@@ -21,8 +21,8 @@ Modelling notes
   ends in `return None`), so the model inspects T first and reads L/V of the NDEF TLV after the
   walk has stopped at it (`walkPre` then `readNdef`).
 * F1 (empty message -> `UnboundLocalError`) and F3 (`_format` terminator) are modelled
-  as REPAIRED (fixes/C01, fixes/C03); F2 (torn 3-byte length field, C02) and the 3-byte length
-  field written over a reserved byte (C03, `Hdr3`) are modelled AS FOUND.
+  and F2 (torn 3-byte length field, `phase3a`) are modelled as REPAIRED (fixes/C01, fixes/C03,
+  fixes/C02); `writeCmdsAsFound` keeps the as-found length write for documentation.
 -/
 namespace NfcVerif.Tlv
 
@@ -224,23 +224,42 @@ def phase2 (c : Cfg) (m1 : Bytes) (off : Nat) (skip : Skip) (areaEnd : Nat) (dat
   place c skip m1 (off + hdrLen data.length) data >>= fun pe =>
   if nextFree skip pe.2 < areaEnd then wr c pe.1 (nextFree skip pe.2) 0xFE else .ok pe.1
 
+/-- phase 3, preparation (repair of F2): when the 3-byte length field `FF hi lo` spans more than
+one write unit, the bytes `hi`/`lo` that lie in a later unit than `FF` are written first, while
+the first length byte is still `00`:
+* `FF | hi lo` (hi and lo together in the next unit): both are set to `00`, so that the field
+  reads as length 0 when `FF` arrives (the unit with `hi lo` follows it - this keeps the
+  command order of the as-found code);
+* otherwise (`FF hi | lo`, or three units when bytes are written one by one): they get their
+  final value, and the unit with `FF` completes the field in one command.
+Nothing changes when the field lies inside one unit or the 1-byte format is used. -/
+def phase3a (c : Cfg) (m2 : Bytes) (off : Nat) (n : Nat) : Py Bytes :=
+  if n < 255 then .ok m2
+  else if (off + 1) / c.unit ≠ (off + 2) / c.unit ∧ (off + 2) / c.unit = (off + 3) / c.unit then
+    wr c m2 (off + 2) 0 >>= fun x => wr c x (off + 3) 0
+  else
+    (if (off + 2) / c.unit ≠ (off + 1) / c.unit then wr c m2 (off + 2) (n / 256) else .ok m2) >>= fun x =>
+    (if (off + 3) / c.unit ≠ (off + 1) / c.unit then wr c x (off + 3) (n % 256) else .ok x)
+
 /-- phase 3: the length field (`FF hi lo` for 255 and more) -/
-def phase3 (c : Cfg) (m2 : Bytes) (off : Nat) (n : Nat) : Py Bytes :=
-  if n < 255 then wr c m2 (off + 1) n
-  else wr c m2 (off + 1) 0xFF >>= fun x => wr c x (off + 2) (n / 256) >>= fun y => wr c y (off + 3) (n % 256)
+def phase3 (c : Cfg) (m3a : Bytes) (off : Nat) (n : Nat) : Py Bytes :=
+  if n < 255 then wr c m3a (off + 1) n
+  else wr c m3a (off + 1) 0xFF >>= fun x => wr c x (off + 2) (n / 256) >>= fun y => wr c y (off + 3) (n % 256)
 
 structure Phases where
   m1 : Bytes
   m2 : Bytes
+  m3a : Bytes
   m3 : Bytes
   deriving Repr, DecidableEq
 
-/-- the three successive memory images of `_write_ndef_data` -/
+/-- the successive memory images of `_write_ndef_data` (one per `synchronize()`) -/
 def writeNdef (c : Cfg) (m : Bytes) (L : Layout) (data : Bytes) : Py Phases :=
   phase1 c m L.off >>= fun m1 =>
   phase2 c m1 L.off L.skip L.areaEnd data >>= fun m2 =>
-  phase3 c m2 L.off data.length >>= fun m3 =>
-  .ok ⟨m1, m2, m3⟩
+  phase3a c m2 L.off data.length >>= fun m3a =>
+  phase3 c m3a L.off data.length >>= fun m3 =>
+  .ok ⟨m1, m2, m3a, m3⟩
 
 /-! ## write-back -/
 
@@ -266,7 +285,7 @@ structure WriteOut where
   res : Py Unit
   deriving Repr, DecidableEq
 
-/-- `_write_ndef_data` with the three `synchronize()` calls -/
+/-- `_write_ndef_data` with its `synchronize()` calls -/
 def writeCmds (c : Cfg) (m : Bytes) (L : Layout) (data : Bytes) : WriteOut :=
   match phase1 c m L.off with
   | .error e => ⟨[], .error e⟩
@@ -276,9 +295,26 @@ def writeCmds (c : Cfg) (m : Bytes) (L : Layout) (data : Bytes) : WriteOut :=
     | .error e => ⟨c1, .error e⟩
     | .ok m2 =>
       let c2 := diffUnits c.unit m1 m2
-      match phase3 c m2 L.off data.length with
+      match phase3a c m2 L.off data.length with
       | .error e => ⟨c1 ++ c2, .error e⟩
-      | .ok m3 => ⟨c1 ++ c2 ++ diffUnits c.unit m2 m3, .ok ()⟩
+      | .ok m3a =>
+        let c3a := diffUnits c.unit m2 m3a
+        match phase3 c m3a L.off data.length with
+        | .error e => ⟨c1 ++ c2 ++ c3a, .error e⟩
+        | .ok m3 => ⟨c1 ++ c2 ++ c3a ++ diffUnits c.unit m3a m3, .ok ()⟩
+
+/-- the code AS FOUND before the repair of F2: the length field `FF hi lo` written in one
+`synchronize()` without preparation (kept to document the torn state, `Props/C02`) -/
+def writeCmdsAsFound (c : Cfg) (m : Bytes) (L : Layout) (data : Bytes) : WriteOut :=
+  match phase1 c m L.off with
+  | .error e => ⟨[], .error e⟩
+  | .ok m1 =>
+    match phase2 c m1 L.off L.skip L.areaEnd data with
+    | .error e => ⟨diffUnits c.unit m m1, .error e⟩
+    | .ok m2 =>
+      match phase3 c m2 L.off data.length with
+      | .error e => ⟨diffUnits c.unit m m1 ++ diffUnits c.unit m1 m2, .error e⟩
+      | .ok m3 => ⟨diffUnits c.unit m m1 ++ diffUnits c.unit m1 m2 ++ diffUnits c.unit m2 m3, .ok ()⟩
 
 /-- `Tag.NDEF.octets` setter on an NDEF object whose state is `L` -/
 def setOctets (c : Cfg) (m : Bytes) (L : Layout) (data : Bytes) : WriteOut :=
